@@ -340,7 +340,7 @@ impl Interp {
         }
     }
 
-    fn is_uncertain(&self, dir: NodeId, name: &str) -> bool {
+    pub fn is_uncertain(&self, dir: NodeId, name: &str) -> bool {
         match names::ref_parse(name) {
             RefName::Valid(n) => self.uncertain.iter().any(|(d, x)| *d == dir && *x == n),
             _ => false,
@@ -811,6 +811,8 @@ impl Interp {
                     self.files[i].dirty = false;
                     let n = of.node;
                     self.nodes[n].flushed = Some(self.nodes[n].data.clone());
+                    let of2 = self.files[i].clone();
+                    self.query_file(info, &of2, Surf::Raw);
                 } else {
                     self.nodes[of.node].tainted = true;
                 }
@@ -859,6 +861,9 @@ impl Interp {
                             self.stats.read_after_write_overlap = true;
                         }
                         self.files[i].off = of.off + got as u32;
+                        // offset / length / end-of-file as reported after the read
+                        let of2 = self.files[i].clone();
+                        self.query_file(info, &of2, Surf::Raw);
                     }
                     Err(_) => {
                         self.expect_ok(info, &r, "C01", "read-failed", "read");
@@ -1905,6 +1910,30 @@ fn walk_model(it: &Interp, api: &dyn Api, dir: NodeId, dh: RawDirectory, errs: &
                 Err(e) => errs.push(("remount-open-dir", format!("{}: {:?}", it.path_of(c), e))),
             }
         } else {
+            // the entry as a fresh manager reports it: size, attributes, write time
+            match api.find(dh, &nm, Surf::Raw) {
+                Ok(e) => {
+                    if e.size as usize != n.data.len() {
+                        errs.push(("remount-entry-size", format!("{}: find_directory_entry reports size {} (model {})", it.path_of(c), e.size, n.data.len())));
+                    }
+                    let a = e.attributes;
+                    let got = (a.is_read_only() as u8) | (a.is_hidden() as u8) << 1 | (a.is_system() as u8) << 2 | (a.is_volume() as u8) << 3 | (a.is_directory() as u8) << 4 | (a.is_archive() as u8) << 5;
+                    let mask = if n.mtime.is_none() && n.touched { 0x1F } else { 0x3F };
+                    if (got ^ n.attr) & mask != 0 {
+                        errs.push(("remount-entry-attributes", format!("{}: find_directory_entry reports attributes {:#04x} (model {:#04x})", it.path_of(c), got, n.attr)));
+                    }
+                    // only representable FAT date/time words survive the crate's Timestamp type
+                    let representable = |date: u16, time: u16| (1..=12).contains(&((date >> 5) & 15)) && (date & 31) >= 1 && (time >> 11) < 24 && ((time >> 5) & 63) < 60 && (time & 31) < 30;
+                    if let Some((date, time)) = n.mtime.filter(|(d, t)| representable(*d, *t)) {
+                        let w = e.mtime.serialize_to_fat();
+                        let (t, dt) = (u16::from_le_bytes([w[0], w[1]]), u16::from_le_bytes([w[2], w[3]]));
+                        if (dt, t) != (date, time) {
+                            errs.push(("remount-entry-mtime", format!("{}: find_directory_entry reports write date/time {:#06x}/{:#06x} (model {:#06x}/{:#06x})", it.path_of(c), dt, t, date, time)));
+                        }
+                    }
+                }
+                Err(e) => errs.push(("remount-find", format!("{}: {:?}", it.path_of(c), e))),
+            }
             match api.open_file(dh, &nm, Mode::ReadOnly, Surf::Raw) {
                 Ok(f) => {
                     let mut out = Vec::new();
